@@ -27,7 +27,8 @@ from ..cases import check_only
 from ..lattice import quat_to_matrix
 from ..runs import batch_validate
 
-ATOL = 1e-8          # the solvers' default Newton tolerance
+ATOL = 1e-8          # Newton tolerance, purely absolute (newton_rtol = 1e-14): the component-wise relative part of the default tolerance
+                     # scales with the coordinates, i.e. with the placement, and with it the iteration counts that steer the arc-length steps
 
 
 def _quiet():
@@ -95,9 +96,9 @@ def run_static(solver, system, nsteps, max_iter=50, span=(0.0, 1.0)):
     with warnings.catch_warnings(record=True) as wl, _quiet():
         warnings.simplefilter("always")
         if solver == "Newton":
-            sol = Newton(system, n_load_steps=nsteps, verbose=False, options=SolverOptions(newton_atol=ATOL, newton_max_iter=max_iter)).solve()
+            sol = Newton(system, n_load_steps=nsteps, verbose=False, options=SolverOptions(newton_atol=ATOL, newton_rtol=1e-14, newton_max_iter=max_iter)).solve()
         else:
-            sol = Riks(system, la_arc0=0.05, la_arc_span=np.array(span, dtype=float), max_load_steps=200, options=SolverOptions(newton_atol=ATOL, newton_max_iter=max_iter)).solve()
+            sol = Riks(system, la_arc0=0.05, la_arc_span=np.array(span, dtype=float), max_load_steps=200, options=SolverOptions(newton_atol=ATOL, newton_rtol=1e-14, newton_max_iter=max_iter)).solve()
     return sol, [str(w.message) for w in wl]
 
 
@@ -117,9 +118,10 @@ def rod_nodes(rod, q):
 
 def frame_block(rod_a, sol_a, rod_b, sol_b, R0, d):
     """max deviation of the moved problem's equilibria from the moved equilibria (positions relative to the rod length, orientations)"""
-    if len(sol_a.t) != len(sol_b.t) or not np.allclose(sol_a.t, sol_b.t, rtol=0, atol=1e-7):
-        return None
-    worst = 0.0
+    # (with a purely absolute Newton tolerance the iteration counts, hence the arc-length steps, do not depend on the placement)
+    if len(sol_a.t) != len(sol_b.t):
+        return 1.0
+    worst = float(np.max(np.abs(np.asarray(sol_a.t) - np.asarray(sol_b.t))))
     for qa, qb in zip(sol_a.q, sol_b.q):
         ra, Aa = rod_nodes(rod_a, np.asarray(qa)); rb, Ab = rod_nodes(rod_b, np.asarray(qb))
         worst = max(worst, float(np.max(np.abs(rb - (ra @ R0.T + d)))) / 2.0, float(np.max(np.abs(Ab - np.einsum("ij,njk->nik", R0, Aa)))))
@@ -176,10 +178,17 @@ def run(ctx):
         rec["id"] = len(records) + 1
         records.append(rec); wheres[rec["id"]] = where
 
-    for interp, mixed, constraints, degree in combos:
-        name = f"cantilever {interp}[p={degree},mixed={mixed},constraints={constraints}]"
+    # two dedicated problems: a placement turned by 170 degrees about the axis the rod is bent about (the scalar parts of the nodal quaternions change sign along the rod)
+    combos = list(combos) + [("Quaternion", False, None, 2, "half-turn"), ("Quaternion", True, None, 2, "half-turn")]
+    for combo in combos:
+        interp, mixed, constraints, degree = combo[:4]
+        half_turn = len(combo) > 4
+        name = f"cantilever {interp}[p={degree},mixed={mixed},constraints={constraints}]" + (" placed at 170 degrees" if half_turn else "")
         F = np.array([0.0, rng.choice([0.15, -0.2]), rng.choice([0.1, 0.25])]); M = np.array([rng.choice([0.0, 0.1]), 0.0, rng.choice([0.2, -0.15])])
         Q0 = np.array([rng.gauss(0, 1) for _ in range(4)]); Q0 /= np.linalg.norm(Q0)
+        if half_turn:
+            F = np.array([0.0, 0.05, 0.0]); M = np.array([0.0, 0.0, 0.25])
+            Q0 = np.array([math.cos(math.radians(85.0)), 0.0, 0.0, math.sin(math.radians(85.0))])
         R0 = rot(Q0); d = np.array([rng.uniform(-1, 1) for _ in range(3)]) * rng.choice([1.0, 1.0, 30.0])      # some placements far from the origin
         for solver in (["Newton", "Riks"] if (ctx.thorough or interp == "Quaternion") and constraints is None else ["Newton"]):
             where = dict(problem=name, solver=solver, tip_force=F.tolist(), tip_moment_body_fixed=M.tolist(), moved_by=dict(Q0=Q0.tolist(), d=d.tolist()))
@@ -278,7 +287,8 @@ def run(ctx):
                             "(solver, problem, frame, step)",
                     "states": r_t.distinct + rt.distinct, "transitions": max(r_t.generated + rt.generated, 1), "traces_validated_against_impl": len(records),
                     "samples": [{k: records[-1][k] for k in ("solver", "step", "vals", "tag")}], "runs": runs, "borderline": nb, "not_judged": notjudged}
-    ctx.assumptions = ["solver tolerance 1e-8; a block is 'ok' below 1e-6 (equilibrium relative to the load scale), 'violated' above 1e-4, not judged in between; the frame block is "
+    ctx.assumptions = ["solver tolerance 1e-8, absolute (the relative part of the default tolerance depends on the placement through |x|, and with it the iteration counts that steer the "
+                       "arc-length steps: with the default, rotated problems are traced at other load parameters; not judged); a block is 'ok' below 1e-6 (equilibrium relative to the load scale), 'violated' above 1e-4, not judged in between; the frame block is "
                        "'ok' below 1e-6, 'violated' above 1e-4",
                        "runs that raise or stop early are not judged here (C21 decides that they say so); the rows they return are judged",
                        "loads are small enough for a unique equilibrium branch (tip deflections of a few tenths of the rod length)"]
